@@ -141,6 +141,26 @@ pub struct Step {
     pub link_up: bool,
 }
 
+/// The newest event id that existed when the session took the database lock to write the fragment transmitted at world
+/// order `rx_order` in this step (`newest_before_step` = newest id before the step's transactions). `None` = the fragment was
+/// not written in this step (a copy of an earlier one) or no event existed: no restriction.
+pub fn newest_event_at_write(step: &Step, rx_order: u64, newest_before_step: Option<u64>) -> Option<u64> {
+    let mut cur = newest_before_step;
+    let mut at_write: Option<Option<u64>> = None;
+    for tl in &step.timeline {
+        match tl {
+            TL::Update { info, order, .. } if *order < rx_order => match info {
+                UpdateInfo::Created(id) => cur = Some(cur.map(|c| c.max(*id)).unwrap_or(*id)),
+                UpdateInfo::Overflow { created, .. } => cur = Some(cur.map(|c| c.max(*created)).unwrap_or(*created)),
+                _ => {}
+            },
+            TL::Lock(site, order) if *order < rx_order && (*site == "write_unsolicited" || *site == "write_response_headers") => at_write = Some(cur),
+            _ => {}
+        }
+    }
+    at_write.flatten()
+}
+
 pub trait Oracle {
     fn step(&mut self, world: &World, step: &Step) -> Option<Violation>;
     fn finish(&mut self, _world: &World) -> Option<Violation> {
